@@ -38,4 +38,5 @@ def ungroup(grouped: torch.Tensor, axis: int, orig_shape: torch.Size):
     ungrouped = grouped.reshape(group_size, axis_dim, axis_groups)
     # Permute to (axis_groups, group_size, axis_dim)
     ungrouped = ungrouped.permute(2, 0, 1)
-    return ungrouped.reshape(orig_shape)
+    # The permuted tensor must be copied to match the (contiguous) layout announced by the quantized tensor
+    return ungrouped.reshape(orig_shape).contiguous()
